@@ -199,12 +199,23 @@ def concretize_int(t, limit=80):
         raise SymbolicBranch("symbolic integer needed as a concrete value outside fork mode: %s" % str(s)[:160])
     from . import solve
     for _ in range(limit):
-        v = solve.feasible_int_value(r.assumptions + r.side + r.path + r.guards, t)
+        # re-executions of a known path prefix ask the same question again (execution is deterministic given the decisions taken):
+        # answered from a cache keyed by the decision prefix and the number of such questions asked so far on this path
+        r.cseq = getattr(r, "cseq", 0) + 1
+        key = (tuple(r.decisions[: r.dpos]), r.cseq)
+        if key in _CVAL_CACHE:
+            v = _CVAL_CACHE[key]
+        else:
+            v = solve.feasible_int_value(r.assumptions + r.side + r.path + r.guards, t)
+            _CVAL_CACHE[key] = v
         if v is None:
             raise NeedFork("no feasible value")
         if decide(t == v):
             return v
     raise SymbolicBranch("more than %d feasible values for %s" % (limit, str(s)[:100]))
+
+
+_CVAL_CACHE = {}
 
 
 def inverse(b):
